@@ -155,8 +155,8 @@ JOBS['C01'] = [
 ]
 JOBS['C03'] = [pla('pla_fit_k3_e0', 3, epsfix=0, maximality=False),
                pla('pla_fit_k3_e1_x63', 3, epsfix=1, xmax=63, ymax=6, maximality=False), pla('pla_fit_k3_e2_x31', 3, epsfix=2, xmax=31, ymax=6, maximality=False),
-               pla('pla_fit_k3_e1', 3, epsfix=1, maximality=False, tiers=T, timeout=3000), pla('pla_fit_k3_e2', 3, epsfix=2, maximality=False, tiers=T, timeout=3000),
-               pla('pla_fit_k4_e1_x31', 4, epsfix=1, xmax=31, ymax=6, maximality=False, tiers=T, timeout=3000)]
+               pla('pla_fit_k3_e2', 3, epsfix=2, maximality=False, tiers=T, timeout=3000),
+               pla('pla_fit_k4_e1_x15', 4, epsfix=1, xmax=15, ymax=6, maximality=False, tiers=T, timeout=3000)]
 JOBS['C03'] += [mkseg('mkseg_n2_e0', 2, 0), mkseg('mkseg_n2_e1', 2, 1), mkseg('mkseg_n3_e1_chunk02', 3, 1, range_end=2), mkseg('mkseg_n4_e1_chunk03', 4, 1, range_end=3, tiers=T, timeout=3000), mkseg('mkseg_n3_e1', 3, 1, tiers=T, timeout=3000), ]
 JOBS['C04'] = [pla('pla_max_k3_e%d_x15' % e, 3, epsfix=e, xmax=15, ymax=6) for e in (0, 1)] + [pla('pla_max_k3_e2_x7', 3, epsfix=2, xmax=7, ymax=12)] + \
               [pla('pla_max_k3_e1_x63', 3, epsfix=1, xmax=63, ymax=6, tiers=T, timeout=3000)]
